@@ -82,6 +82,7 @@ Proof.
   assert (Hw : white_space (c :: name) = CNone).
   { unfold white_space. cbn [span]. rewrite (keyc_not_space c Hc). reflexivity. }
   rewrite Hw.
+  change (Z.min 0 1) with 0%Z.
   rewrite (lit_key (c :: name) prev Hn). cbn [length]. reflexivity.
 Qed.
 
